@@ -1,6 +1,8 @@
 INIT Init
 NEXT Next
-CONSTANT MaxLen = 3
+CONSTANTS
+  MaxLen = 3
+  AllUnits = FALSE
 INVARIANT EscapedTextIsWellFormed
 INVARIANT Total
 INVARIANT RawNeedsEscaping
